@@ -10,7 +10,7 @@ Import ListNotations.
 Theorem C04_firewall :
   forall (h : hdrs) (internal : bool) (secrets : list str) (ip uuid : str),
     uuid <> [] -> ip <> [] -> (internal = true -> secrets <> []) ->
-    match ensure_internal h internal secrets (Some ip) uuid with
+    match ensure_internal h internal secrets ip uuid with
     | EiOk d => must_deny h internal secrets = false /\ delivered_ok h internal secrets d
     | Ei407 => must_deny h internal secrets = true
     | EiPanic => False
@@ -28,6 +28,34 @@ Print Assumptions C04_frame.
 (* Non-vacuity: a concrete internal request with a rotated (old) secret and a client id. *)
 Example C04_example :
   let h := hset (hset [] hdr_secret (bytes "old"%string)) hdr_req_id (bytes "abc"%string) in
-  ensure_internal h true [bytes "new"%string; bytes "old"%string] (Some (bytes "10.0.0.1"%string)) (bytes "u-1"%string)
+  ensure_internal h true [bytes "new"%string; bytes "old"%string] (bytes "10.0.0.1"%string) (bytes "u-1"%string)
   = EiOk (hset h hdr_orig_ip (bytes "10.0.0.1"%string)).
 Proof. vm_compute. reflexivity. Qed.
+
+(* At the route level (imports below are only used from here on). *)
+From Verif Require Import Serve RouteProofs ForwardProofs.
+
+(* A request carrying a secret that is not configured reaches no destination at all:
+   for every ruleset (copy rules, retry rules), script and retry budget the log is unchanged
+   and the result is an error. *)
+Theorem C04_unknown_secret_reaches_no_destination :
+  forall fuel c rs q body ov fb sc log,
+    nonempty (hget (filter_header (q_hdrs q) hop_by_hop) hdr_secret) = true ->
+    str_in (match c_secrets c with Some ss => ss | None => [] end)
+           (hget (filter_header (q_hdrs q) hop_by_hop) hdr_secret) = false ->
+    rt_log (route_request fuel c rs q body ov fb sc log) = log /\
+    exists e, rt_res (route_request fuel c rs q body ov fb sc log) = inr e /\
+              (e = E407 \/ e = E404 \/ e = E500 \/ e = EOutOfFuel).
+Proof. intros. apply unknown_secret_reaches_nothing; assumption. Qed.
+Print Assumptions C04_unknown_secret_reaches_no_destination.
+
+(* Every request that does reach a destination went through the firewall: together with
+   C03_headers_method_host_intact (whose last two conjuncts are must_deny = false and
+   delivered_ok for that destination's internal flag), no destination ever receives a
+   request the property says must be denied on its route. *)
+Theorem C04_every_delivery_passed_the_firewall :
+  forall fuel c rs q body ov fb sc log,
+    exists extra, rt_log (route_request fuel c rs q body ov fb sc log) = log ++ extra /\
+                  Forall (dlv_from c q body) extra.
+Proof. exact route_request_log. Qed.
+Print Assumptions C04_every_delivery_passed_the_firewall.
